@@ -4,7 +4,7 @@ use crate::rcgen::{self, SITES_RC};
 use crate::rcworld;
 use crate::runner::{CheckDef, Family, Tier};
 use crate::templates;
-use crate::{ebrworld, pure, queuelist, seq, tls};
+use crate::{ebrworld, micro, pure, queuelist, seq, tls};
 
 const ASSUME_SC: &str = "only sequentially consistent interleavings at the granularity of one atomic access per step are explored";
 const ASSUME_HOOKS: &str = "circ is built with --cfg circ_verif (yield points, events, read-only shims) and without debug assertions";
@@ -23,17 +23,20 @@ pub fn all() -> Vec<CheckDef> {
         CheckDef {
             id: "C01",
             families: vec![
+                Family { enumerate: Some(micro::enumerate), variant: "", name: "micro-two-preemption-points-enumerated", strategy: |_| templates::t2(), cases: micro::total },
+
                 Family {
+                    enumerate: None,
                     variant: "",
                     name: "free-strong",
                     strategy: |t| rcgen::free_case(rcgen::W_STRONG, 4, t.pick(30, 45), t.pick(8, 14), SITES_RC),
                     cases: |t| t.pick(24_000, 240_000),
                 },
-                Family { variant: "", name: "roles-reader-mutators-collector", strategy: |t| rcgen::role_case(t.pick(20, 30), t.pick(10, 16), SITES_RC), cases: |t| t.pick(16_000, 160_000) },
-                Family { variant: "", name: "T2-upgrade-vs-last-drop", strategy: |_| templates::t2(), cases: |t| t.pick(12_000, 120_000) },
-                Family { variant: "", name: "T1-two-owner-cascade", strategy: |_| templates::t1(), cases: |t| t.pick(4_000, 40_000) },
-                Family { variant: "", name: "T4-upgrade-racing-cascade", strategy: |_| templates::t4(), cases: |t| t.pick(12_000, 120_000) },
-                Family { variant: "", name: "T3-reader-on-chain-harris-unlink", strategy: |_| templates::t3(), cases: |t| t.pick(4_000, 40_000) },
+                Family { enumerate: None, variant: "", name: "roles-reader-mutators-collector", strategy: |t| rcgen::role_case(t.pick(20, 30), t.pick(10, 16), SITES_RC), cases: |t| t.pick(16_000, 160_000) },
+                Family { enumerate: None, variant: "", name: "T2-upgrade-vs-last-drop", strategy: |_| templates::t2(), cases: |t| t.pick(12_000, 120_000) },
+                Family { enumerate: None, variant: "", name: "T1-two-owner-cascade", strategy: |_| templates::t1(), cases: |t| t.pick(4_000, 40_000) },
+                Family { enumerate: None, variant: "", name: "T4-upgrade-racing-cascade", strategy: |_| templates::t4(), cases: |t| t.pick(12_000, 120_000) },
+                Family { enumerate: None, variant: "", name: "T3-reader-on-chain-harris-unlink", strategy: |_| templates::t3(), cases: |t| t.pick(4_000, 40_000) },
             ],
             exec: rcworld::exec,
             rule: "free random API programs (2-4 threads, <=30 ops each, <=8 schedule directives) and choreography templates over the real library with a shadow ownership model; non-trivial = at least one object destructed, at least one Rc obtained by something other than new, and at least two context switches; distinct = distinct hash of the case",
@@ -44,19 +47,22 @@ pub fn all() -> Vec<CheckDef> {
         CheckDef {
             id: "C02",
             families: vec![
+                Family { enumerate: Some(micro::enumerate), variant: "", name: "micro-two-preemption-points-enumerated", strategy: |_| templates::t2(), cases: micro::total },
+
                 Family {
+                    enumerate: None,
                     variant: "",
                     name: "free-strong",
                     strategy: |t| rcgen::free_case(rcgen::W_STRONG, 4, t.pick(30, 45), t.pick(8, 14), SITES_RC),
                     cases: |t| t.pick(20_000, 200_000),
                 },
-                Family { variant: "", name: "roles-reader-mutators-collector", strategy: |t| rcgen::role_case(t.pick(20, 30), t.pick(10, 16), SITES_RC), cases: |t| t.pick(30_000, 300_000) },
-                Family { variant: "", name: "T1-two-owner-cascade", strategy: |_| templates::t1(), cases: |t| t.pick(40_000, 400_000) },
-                Family { variant: "", name: "T2-upgrade-vs-last-drop", strategy: |_| templates::t2(), cases: |t| t.pick(4_000, 40_000) },
-                Family { variant: "", name: "T3-reader-on-chain-harris-unlink", strategy: |_| templates::t3(), cases: |t| t.pick(16_000, 160_000) },
-                Family { variant: "", name: "T4-upgrade-racing-cascade", strategy: |_| templates::t4(), cases: |t| t.pick(12_000, 120_000) },
-                Family { variant: "", name: "T5-install-into-unlinked-node", strategy: |_| templates::t5(), cases: |t| t.pick(12_000, 120_000) },
-                Family { variant: "", name: "T8-destructor-holding-a-guard", strategy: |_| templates::t8(), cases: |t| t.pick(12_000, 120_000) },
+                Family { enumerate: None, variant: "", name: "roles-reader-mutators-collector", strategy: |t| rcgen::role_case(t.pick(20, 30), t.pick(10, 16), SITES_RC), cases: |t| t.pick(30_000, 300_000) },
+                Family { enumerate: None, variant: "", name: "T1-two-owner-cascade", strategy: |_| templates::t1(), cases: |t| t.pick(40_000, 400_000) },
+                Family { enumerate: None, variant: "", name: "T2-upgrade-vs-last-drop", strategy: |_| templates::t2(), cases: |t| t.pick(4_000, 40_000) },
+                Family { enumerate: None, variant: "", name: "T3-reader-on-chain-harris-unlink", strategy: |_| templates::t3(), cases: |t| t.pick(16_000, 160_000) },
+                Family { enumerate: None, variant: "", name: "T4-upgrade-racing-cascade", strategy: |_| templates::t4(), cases: |t| t.pick(12_000, 120_000) },
+                Family { enumerate: None, variant: "", name: "T5-install-into-unlinked-node", strategy: |_| templates::t5(), cases: |t| t.pick(12_000, 120_000) },
+                Family { enumerate: None, variant: "", name: "T8-destructor-holding-a-guard", strategy: |_| templates::t8(), cases: |t| t.pick(12_000, 120_000) },
             ],
             exec: rcworld::exec,
             rule: "free programs and templates (reader / unlinker / stalled dropper / collector); non-trivial = (a) an object was destructed while another thread was inside a critical section in which it holds at least one snapshot (the O-snap oracle was evaluated against a non-empty holding set of a peer), or (b) collection rounds ran while some object had no definite strong owner left and was protected only by a peer's snapshot; distinct = distinct hash of the case",
@@ -67,20 +73,24 @@ pub fn all() -> Vec<CheckDef> {
         CheckDef {
             id: "C03",
             families: vec![
+                Family { enumerate: Some(micro::enumerate), variant: "", name: "micro-two-preemption-points-enumerated", strategy: |_| templates::t2(), cases: micro::total },
+
                 Family {
+                    enumerate: None,
                     variant: "",
                     name: "free-weak",
                     strategy: |t| rcgen::free_case(rcgen::W_WEAK, 4, t.pick(30, 45), t.pick(8, 14), SITES_RC),
                     cases: |t| t.pick(30_000, 300_000),
                 },
                 Family {
+                    enumerate: None,
                     variant: "",
                     name: "seq-weak",
                     strategy: |t| rcgen::seq_case(rcgen::W_WEAK, t.pick(40, 80)),
                     cases: |t| t.pick(10_000, 100_000),
                 },
-                Family { variant: "", name: "T6-zero-weak-recount", strategy: |_| templates::t6(), cases: |t| t.pick(30_000, 300_000) },
-                Family { variant: "", name: "T4-upgrade-racing-cascade", strategy: |_| templates::t4(), cases: |t| t.pick(4_000, 40_000) },
+                Family { enumerate: None, variant: "", name: "T6-zero-weak-recount", strategy: |_| templates::t6(), cases: |t| t.pick(30_000, 300_000) },
+                Family { enumerate: None, variant: "", name: "T4-upgrade-racing-cascade", strategy: |_| templates::t4(), cases: |t| t.pick(4_000, 40_000) },
             ],
             exec: rcworld::exec,
             rule: "weak-biased free programs (concurrent and sequential); non-trivial = at least one block was freed strictly after its object had been destructed, with a weak holder (Weak, AtomicWeak content or WeakSnapshot) having referred to it in between; distinct = distinct hash of the case",
@@ -91,28 +101,33 @@ pub fn all() -> Vec<CheckDef> {
         CheckDef {
             id: "C04",
             families: vec![
+                Family { enumerate: Some(micro::enumerate), variant: "", name: "micro-two-preemption-points-enumerated", strategy: |_| templates::t2(), cases: micro::total },
+
                 Family {
+                    enumerate: None,
                     variant: "",
                     name: "seq-graphs",
                     strategy: |t| rcgen::seq_case(rcgen::W_STRONG, t.pick(60, 120)),
                     cases: |t| t.pick(20_000, 200_000),
                 },
                 Family {
+                    enumerate: None,
                     variant: "",
                     name: "free-strong",
                     strategy: |t| rcgen::free_case(rcgen::W_STRONG, 4, t.pick(30, 45), t.pick(8, 14), SITES_RC),
                     cases: |t| t.pick(16_000, 160_000),
                 },
                 Family {
+                    enumerate: None,
                     variant: "",
                     name: "free-weak",
                     strategy: |t| rcgen::free_case(rcgen::W_WEAK, 3, t.pick(30, 45), t.pick(6, 11), SITES_RC),
                     cases: |t| t.pick(6_000, 60_000),
                 },
-                Family { variant: "", name: "T2-upgrade-vs-last-drop", strategy: |_| templates::t2(), cases: |t| t.pick(12_000, 120_000) },
-                Family { variant: "", name: "T4-upgrade-racing-cascade", strategy: |_| templates::t4(), cases: |t| t.pick(8_000, 80_000) },
-                Family { variant: "", name: "T6-zero-weak-recount", strategy: |_| templates::t6(), cases: |t| t.pick(8_000, 80_000) },
-                Family { variant: "", name: "T3-reader-on-chain-harris-unlink", strategy: |_| templates::t3(), cases: |t| t.pick(6_000, 60_000) },
+                Family { enumerate: None, variant: "", name: "T2-upgrade-vs-last-drop", strategy: |_| templates::t2(), cases: |t| t.pick(12_000, 120_000) },
+                Family { enumerate: None, variant: "", name: "T4-upgrade-racing-cascade", strategy: |_| templates::t4(), cases: |t| t.pick(8_000, 80_000) },
+                Family { enumerate: None, variant: "", name: "T6-zero-weak-recount", strategy: |_| templates::t6(), cases: |t| t.pick(8_000, 80_000) },
+                Family { enumerate: None, variant: "", name: "T3-reader-on-chain-harris-unlink", strategy: |_| templates::t3(), cases: |t| t.pick(6_000, 60_000) },
             ],
             exec: rcworld::exec,
             rule: "sequential and concurrent programs that build object graphs (edges only from lower to higher rank, weak edges unrestricted) and release them in generated order; non-trivial = at least 3 objects, at least one reclaimed through the cascade and at least one as a deferred root; distinct = distinct hash of the case",
@@ -123,21 +138,25 @@ pub fn all() -> Vec<CheckDef> {
         CheckDef {
             id: "C05",
             families: vec![
+                Family { enumerate: Some(micro::enumerate), variant: "", name: "micro-two-preemption-points-enumerated", strategy: |_| templates::t2(), cases: micro::total },
+
                 Family {
+                    enumerate: None,
                     variant: "",
                     name: "seq-weak",
                     strategy: |t| rcgen::seq_case(rcgen::W_WEAK, t.pick(40, 80)),
                     cases: |t| t.pick(12_000, 120_000),
                 },
                 Family {
+                    enumerate: None,
                     variant: "",
                     name: "free-weak",
                     strategy: |t| rcgen::free_case(rcgen::W_WEAK, 4, t.pick(30, 45), t.pick(8, 14), SITES_RC),
                     cases: |t| t.pick(16_000, 160_000),
                 },
-                Family { variant: "", name: "T2-upgrade-vs-last-drop", strategy: |_| templates::t2(), cases: |t| t.pick(12_000, 120_000) },
-                Family { variant: "", name: "T4-upgrade-racing-cascade", strategy: |_| templates::t4(), cases: |t| t.pick(16_000, 160_000) },
-                Family { variant: "", name: "T6-zero-weak-recount", strategy: |_| templates::t6(), cases: |t| t.pick(4_000, 40_000) },
+                Family { enumerate: None, variant: "", name: "T2-upgrade-vs-last-drop", strategy: |_| templates::t2(), cases: |t| t.pick(12_000, 120_000) },
+                Family { enumerate: None, variant: "", name: "T4-upgrade-racing-cascade", strategy: |_| templates::t4(), cases: |t| t.pick(16_000, 160_000) },
+                Family { enumerate: None, variant: "", name: "T6-zero-weak-recount", strategy: |_| templates::t6(), cases: |t| t.pick(4_000, 40_000) },
             ],
             exec: rcworld::exec,
             rule: "programs with Weak::upgrade / WeakSnapshot::upgrade around the destruction of their object; non-trivial = the case contains a successful and a failed upgrade, or an upgrade during which another thread took steps; distinct = distinct hash of the case",
@@ -148,19 +167,23 @@ pub fn all() -> Vec<CheckDef> {
         CheckDef {
             id: "C08",
             families: vec![
+                Family { enumerate: Some(micro::enumerate), variant: "", name: "micro-two-preemption-points-enumerated", strategy: |_| templates::t2(), cases: micro::total },
+
                 Family {
+                    enumerate: None,
                     variant: "",
                     name: "seq-cell",
                     strategy: |t| rcgen::seq_case(rcgen::W_CELL, t.pick(50, 100)),
                     cases: |t| t.pick(16_000, 160_000),
                 },
                 Family {
+                    enumerate: None,
                     variant: "",
                     name: "free-cell",
                     strategy: |t| rcgen::free_case(rcgen::W_CELL, 4, t.pick(24, 36), t.pick(8, 14), SITES_RC),
                     cases: |t| t.pick(20_000, 200_000),
                 },
-                Family { variant: "", name: "T7-restamp-then-cas", strategy: |_| templates::t7(), cases: |t| t.pick(16_000, 160_000) },
+                Family { enumerate: None, variant: "", name: "T7-restamp-then-cas", strategy: |_| templates::t7(), cases: |t| t.pick(16_000, 160_000) },
             ],
             exec: rcworld::exec,
             rule: "programs hammering AtomicRc cells with load/store/swap/compare_exchange(_weak)/compare_exchange_tag; non-trivial = at least one successful and one failed CAS, or a CAS whose expected snapshot differed from the cell's word in the internal epoch bits only; distinct = distinct hash of the case",
@@ -171,19 +194,23 @@ pub fn all() -> Vec<CheckDef> {
         CheckDef {
             id: "C09",
             families: vec![
+                Family { enumerate: Some(micro::enumerate), variant: "", name: "micro-two-preemption-points-enumerated", strategy: |_| templates::t2(), cases: micro::total },
+
                 Family {
+                    enumerate: None,
                     variant: "",
                     name: "seq-wcell",
                     strategy: |t| rcgen::seq_case(rcgen::W_WCELL, t.pick(50, 100)),
                     cases: |t| t.pick(16_000, 160_000),
                 },
                 Family {
+                    enumerate: None,
                     variant: "",
                     name: "free-wcell",
                     strategy: |t| rcgen::free_case(rcgen::W_WCELL, 4, t.pick(24, 36), t.pick(8, 14), SITES_RC),
                     cases: |t| t.pick(20_000, 200_000),
                 },
-                Family { variant: "", name: "T7w-restamp-then-weak-cas", strategy: |_| templates::t7w(), cases: |t| t.pick(16_000, 160_000) },
+                Family { enumerate: None, variant: "", name: "T7w-restamp-then-weak-cas", strategy: |_| templates::t7w(), cases: |t| t.pick(16_000, 160_000) },
             ],
             exec: rcworld::exec,
             rule: "programs hammering AtomicWeak cells, and the restamp-then-CAS template with the expected WeakSnapshot loaded from the cell, downgraded from a Snapshot loaded from an AtomicRc written at another epoch, or taken from a Weak; non-trivial = at least one successful and one failed CAS, or a CAS whose expected WeakSnapshot differed from the cell's word in the internal epoch bits only; distinct = distinct hash of the case",
@@ -195,12 +222,14 @@ pub fn all() -> Vec<CheckDef> {
             id: "C10",
             families: vec![
                 Family {
+                    enumerate: None,
                     variant: "",
                     name: "bulk-dedicated",
                     strategy: |_| seq::bulk_strategy(),
                     cases: |t| t.pick(40_000, 400_000),
                 },
                 Family {
+                    enumerate: None,
                     variant: "",
                     name: "seq-bulk",
                     strategy: |t| rcgen::seq_case(rcgen::W_BULK, t.pick(40, 80)),
@@ -215,7 +244,7 @@ pub fn all() -> Vec<CheckDef> {
         },
         CheckDef {
             id: "C06",
-            families: vec![Family { variant: "", name: "structures", strategy: seq::c06_strategy, cases: |t| t.pick(40_000, 60_000) }],
+            families: vec![Family { enumerate: None, variant: "", name: "structures", strategy: seq::c06_strategy, cases: |t| t.pick(40_000, 60_000) }],
             exec: seq::exec_c06,
             rule: "chains, binary trees, combs (spine first and leaf first) and spines with twigs of n nodes (log-uniform up to 20 000 quick / 1 000 000 thorough), links stamped within a band of <=3 epochs or unstamped, head dropped when the band is 3..40 epochs old, flush delayed by 0..20 foreign epoch advances, epoch alignment 0..47, optionally one externally held node at a generated position and/or every node whose id is r modulo m held (e.g. every leaf of a comb); oracle: all unreachable nodes destructed within 40 + 16*ceil(n/1024) epoch advances after the flush, held sub-structure intact. Non-trivial = n >= 64; distinct = distinct hash of the case",
             timeout_s: |t| t.pick(120, 600),
@@ -224,7 +253,7 @@ pub fn all() -> Vec<CheckDef> {
         },
         CheckDef {
             id: "C07",
-            families: vec![Family { variant: "", name: "deep-structures", strategy: seq::c07_strategy, cases: |t| t.pick(2_400, 4_800) }],
+            families: vec![Family { enumerate: None, variant: "", name: "deep-structures", strategy: seq::c07_strategy, cases: |t| t.pick(2_400, 4_800) }],
             exec: seq::exec_c07,
             rule: "chains / binary trees / combs (spine first and leaf first) / spines with twigs / chains whose nodes leave their edges to Drop, n log-uniform up to 300 000 (thorough 4 000 000), reclaimed on the main thread or on a spawned thread with 2 MiB / 1 MiB / 512 KiB stack; oracle: the process survives and every node is destructed. Non-trivial = n >= 2048 (the recursion cap is reached at least twice); distinct = distinct hash of the case",
             timeout_s: |t| t.pick(300, 900),
@@ -234,9 +263,9 @@ pub fn all() -> Vec<CheckDef> {
         CheckDef {
             id: "C11",
             families: vec![
-                Family { variant: "", name: "tagged-words", strategy: |_| pure::tag_strategy(), cases: |t| t.pick(30_000, 300_000) },
-                Family { variant: "", name: "tagged-exhaustive-subspace", strategy: |_| pure::tag_exhaustive_strategy(), cases: |_| 64 },
-                Family { variant: "", name: "api-on-real-objects", strategy: |_| pure::api_tag_strategy(), cases: |t| t.pick(20_000, 200_000) },
+                Family { enumerate: None, variant: "", name: "tagged-words", strategy: |_| pure::tag_strategy(), cases: |t| t.pick(30_000, 300_000) },
+                Family { enumerate: None, variant: "", name: "tagged-exhaustive-subspace", strategy: |_| pure::tag_exhaustive_strategy(), cases: |_| 64 },
+                Family { enumerate: None, variant: "", name: "api-on-real-objects", strategy: |_| pure::api_tag_strategy(), cases: |t| t.pick(20_000, 200_000) },
             ],
             exec: pure::exec_c11,
             rule: "(a) the library's Tagged<T> operations on plain words at alignments 1,2,4,8,16,64,4096: boundary and random aligned addresses below 2^60, tags over the whole usize range, timestamps 0..15 and wider, plus the sub-space 16 timestamps x tags < 2*align x 4 boundary addresses enumerated completely; (b) with_tag/tag/ptr_eq/is_null/formatting/dereference through Rc, Snapshot, Weak, WeakSnapshot on real objects of payload alignment 8/16/64, the same pointer written at two different epochs. Non-trivial = a tag with bits above the alignment mask or a non-zero timestamp; distinct = distinct hash of the case",
@@ -247,10 +276,10 @@ pub fn all() -> Vec<CheckDef> {
         CheckDef {
             id: "C12",
             families: vec![
-                Family { variant: "", name: "state-fields", strategy: |_| pure::state_strategy(), cases: |t| t.pick(20_000, 200_000) },
-                Family { variant: "", name: "modular", strategy: |_| pure::mod_strategy(), cases: |t| t.pick(20_000, 200_000) },
-                Family { variant: "", name: "modular-exhaustive-0..255", strategy: |_| pure::mod_exhaustive_strategy(), cases: |_| 64 },
-                Family { variant: "", name: "decision-end-to-end", strategy: |_| seq::age_strategy(), cases: |t| t.pick(20_000, 200_000) },
+                Family { enumerate: None, variant: "", name: "state-fields", strategy: |_| pure::state_strategy(), cases: |t| t.pick(20_000, 200_000) },
+                Family { enumerate: None, variant: "", name: "modular", strategy: |_| pure::mod_strategy(), cases: |t| t.pick(20_000, 200_000) },
+                Family { enumerate: None, variant: "", name: "modular-exhaustive-0..255", strategy: |_| pure::mod_exhaustive_strategy(), cases: |_| 64 },
+                Family { enumerate: None, variant: "", name: "decision-end-to-end", strategy: |_| seq::age_strategy(), cases: |t| t.pick(20_000, 200_000) },
             ],
             exec: pure::exec_c12,
             rule: "(a) count words built from random and boundary field values, every updater and the word arithmetic the library performs must change its own field only; (b) the library's modular le/max for current epochs 0..10 000 (dense around multiples of 16) and true ages -1..64: old-enough implies age >= 3, ages 3..13 are old enough, the merge returns its newest input, plus epochs 0..255 x ages -1..64 enumerated completely; (c) end to end: parent->child structures whose child is evaluated by the real cascade when its newest stamp has a generated true age, the DISPOSE/REDEFER event says what the code decided. Non-trivial = epoch >= 16 or age >= 14 (wrap involved) or a field at 0/max; distinct = distinct hash of the case",
@@ -260,7 +289,7 @@ pub fn all() -> Vec<CheckDef> {
         },
         CheckDef {
             id: "C19",
-            families: vec![Family { variant: "", name: "pointer-pools", strategy: |_| pure::ord_strategy(), cases: |t| t.pick(30_000, 300_000) }],
+            families: vec![Family { enumerate: None, variant: "", name: "pointer-pools", strategy: |_| pure::ord_strategy(), cases: |t| t.pick(30_000, 300_000) }],
             exec: pure::exec_c19,
             rule: "pools of 2..6 Rc (and their Snapshots) drawn from null, tagged null, the same object under different tags and write epochs, distinct objects with equal or different contents; ==, cmp, partial_cmp, hash compared with Option<&T> of the referent, ptr_eq with identity+tag, and the Eq/Ord laws over all pairs and triples. Non-trivial = the pool contains two distinct objects with equal contents, the same object under different tags/epoch bits, or null next to non-null; distinct = distinct hash of the case",
             timeout_s: t60,
@@ -270,9 +299,11 @@ pub fn all() -> Vec<CheckDef> {
         CheckDef {
             id: "C13",
             families: vec![
-                Family { variant: "", name: "ebr-free", strategy: |t| ebrworld::free(ebrworld::EW_DEFAULT, 4, t.pick(24, 36), t.pick(10, 17)), cases: |t| t.pick(40_000, 400_000) },
-                Family { variant: "", name: "ebr-exit", strategy: |t| ebrworld::free(ebrworld::EW_EXIT, 3, t.pick(16, 24), t.pick(8, 14)), cases: |t| t.pick(10_000, 100_000) },
-                Family { variant: "", name: "private-collector", strategy: |_| ebrworld::private(ebrworld::EW_DEFAULT, 50), cases: |t| t.pick(10_000, 100_000) },
+                Family { enumerate: Some(ebrworld::emicro_enumerate), variant: "", name: "ebr-micro-two-preemption-points-enumerated", strategy: |_| ebrworld::e1(), cases: ebrworld::emicro_total },
+
+                Family { enumerate: None, variant: "", name: "ebr-free", strategy: |t| ebrworld::free(ebrworld::EW_DEFAULT, 4, t.pick(24, 36), t.pick(10, 17)), cases: |t| t.pick(40_000, 400_000) },
+                Family { enumerate: None, variant: "", name: "ebr-exit", strategy: |t| ebrworld::free(ebrworld::EW_EXIT, 3, t.pick(16, 24), t.pick(8, 14)), cases: |t| t.pick(10_000, 100_000) },
+                Family { enumerate: None, variant: "", name: "private-collector", strategy: |_| ebrworld::private(ebrworld::EW_DEFAULT, 50), cases: |t| t.pick(10_000, 100_000) },
             ],
             exec: ebrworld::exec,
             rule: "2-4 scheduled threads running generated pin / nested pin / drop / reactivate(_after) / defer (closures of 4..200 bytes, alignment 4..64) / flush / collection-round / exit programs on the default collector, with preemption at the epoch and raw-pointer atomics inside pin, try_advance, push_bag, collect, the bag queue and the participant list; plus sequential programs on a private collector with three participants. Oracle: a deferred function never runs while a critical section that was active at its deferral is still active. Non-trivial = at least one function was deferred while another participant's critical section was active and was executed within the case; distinct = distinct hash of the case",
@@ -283,9 +314,11 @@ pub fn all() -> Vec<CheckDef> {
         CheckDef {
             id: "C14",
             families: vec![
-                Family { variant: "", name: "ebr-advance", strategy: |t| ebrworld::free(ebrworld::EW_ADVANCE, 4, t.pick(30, 45), t.pick(12, 20)), cases: |t| t.pick(40_000, 400_000) },
-                Family { variant: "", name: "E1-bag-overflow-inside-registry-scan", strategy: |_| ebrworld::e1(), cases: |t| t.pick(30_000, 300_000) },
-                Family { variant: "", name: "ebr-free", strategy: |t| ebrworld::free(ebrworld::EW_DEFAULT, 4, t.pick(24, 36), t.pick(10, 17)), cases: |t| t.pick(16_000, 160_000) },
+                Family { enumerate: Some(ebrworld::emicro_enumerate), variant: "", name: "ebr-micro-two-preemption-points-enumerated", strategy: |_| ebrworld::e1(), cases: ebrworld::emicro_total },
+
+                Family { enumerate: None, variant: "", name: "ebr-advance", strategy: |t| ebrworld::free(ebrworld::EW_ADVANCE, 4, t.pick(30, 45), t.pick(12, 20)), cases: |t| t.pick(40_000, 400_000) },
+                Family { enumerate: None, variant: "", name: "E1-bag-overflow-inside-registry-scan", strategy: |_| ebrworld::e1(), cases: |t| t.pick(30_000, 300_000) },
+                Family { enumerate: None, variant: "", name: "ebr-free", strategy: |t| ebrworld::free(ebrworld::EW_DEFAULT, 4, t.pick(24, 36), t.pick(10, 17)), cases: |t| t.pick(16_000, 160_000) },
             ],
             exec: ebrworld::exec,
             rule: "the same worlds as C13, biased to many short critical sections and re-pins; at every yield point (at most one atomic access apart) the global epoch must be equal to or one more than the previous sample, and every participant inside a checked interval (from the return of its outermost pin/reactivate until it shows unpinned after the matching drop was invoked, i.e. including unpin's collection loop and all internal re-pins) must be within one epoch of the global epoch. Non-trivial = the epoch advanced at least twice while some thread was inside a checked interval and that thread re-pinned at least once inside one; distinct = distinct hash of the case",
@@ -296,9 +329,11 @@ pub fn all() -> Vec<CheckDef> {
         CheckDef {
             id: "C15",
             families: vec![
-                Family { variant: "", name: "ebr-exit", strategy: |t| ebrworld::free(ebrworld::EW_EXIT, 4, t.pick(16, 24), t.pick(8, 14)), cases: |t| t.pick(30_000, 300_000) },
-                Family { variant: "", name: "ebr-free", strategy: |t| ebrworld::free(ebrworld::EW_DEFAULT, 4, t.pick(24, 36), t.pick(10, 17)), cases: |t| t.pick(16_000, 160_000) },
-                Family { variant: "", name: "private-collector", strategy: |_| ebrworld::private(ebrworld::EW_EXIT, 50), cases: |t| t.pick(16_000, 160_000) },
+                Family { enumerate: Some(ebrworld::emicro_enumerate), variant: "", name: "ebr-micro-two-preemption-points-enumerated", strategy: |_| ebrworld::e1(), cases: ebrworld::emicro_total },
+
+                Family { enumerate: None, variant: "", name: "ebr-exit", strategy: |t| ebrworld::free(ebrworld::EW_EXIT, 4, t.pick(16, 24), t.pick(8, 14)), cases: |t| t.pick(30_000, 300_000) },
+                Family { enumerate: None, variant: "", name: "ebr-free", strategy: |t| ebrworld::free(ebrworld::EW_DEFAULT, 4, t.pick(24, 36), t.pick(10, 17)), cases: |t| t.pick(16_000, 160_000) },
+                Family { enumerate: None, variant: "", name: "private-collector", strategy: |_| ebrworld::private(ebrworld::EW_EXIT, 50), cases: |t| t.pick(16_000, 160_000) },
             ],
             exec: ebrworld::exec,
             rule: "the same worlds as C13, biased to deferral bursts (bag fill levels 0..130) and threads that exit with garbage pending at generated points; closures carry a checksum pattern and check their own alignment. Oracle: every deferred function runs at most once at any time, with its captured data intact, and all of them have run within 64 + deferred collection rounds by the surviving thread after the others exited (for private collectors: once every handle and the collector are dropped). Non-trivial = at least one function was executed by another thread after the deferring thread had exited (private: executed at collector drop); distinct = distinct hash of the case",
@@ -309,10 +344,12 @@ pub fn all() -> Vec<CheckDef> {
         CheckDef {
             id: "C16",
             families: vec![
-                Family { variant: "", name: "ebr-guards", strategy: |t| ebrworld::free(ebrworld::EW_GUARDS, 3, t.pick(30, 45), t.pick(6, 11)), cases: |t| t.pick(40_000, 400_000) },
-                Family { variant: "", name: "private-collector", strategy: |_| ebrworld::private(ebrworld::EW_GUARDS, 60), cases: |t| t.pick(16_000, 160_000) },
-                Family { variant: "da", name: "ebr-guards-debug-assertions", strategy: |t| ebrworld::free(ebrworld::EW_GUARDS, 3, t.pick(30, 45), t.pick(6, 11)), cases: |t| t.pick(12_000, 120_000) },
-                Family { variant: "da", name: "private-collector-debug-assertions", strategy: |_| ebrworld::private(ebrworld::EW_GUARDS, 60), cases: |t| t.pick(12_000, 120_000) },
+                Family { enumerate: Some(ebrworld::emicro_enumerate), variant: "", name: "ebr-micro-two-preemption-points-enumerated", strategy: |_| ebrworld::e1(), cases: ebrworld::emicro_total },
+
+                Family { enumerate: None, variant: "", name: "ebr-guards", strategy: |t| ebrworld::free(ebrworld::EW_GUARDS, 3, t.pick(30, 45), t.pick(6, 11)), cases: |t| t.pick(40_000, 400_000) },
+                Family { enumerate: None, variant: "", name: "private-collector", strategy: |_| ebrworld::private(ebrworld::EW_GUARDS, 60), cases: |t| t.pick(16_000, 160_000) },
+                Family { enumerate: None, variant: "da", name: "ebr-guards-debug-assertions", strategy: |t| ebrworld::free(ebrworld::EW_GUARDS, 3, t.pick(30, 45), t.pick(6, 11)), cases: |t| t.pick(12_000, 120_000) },
+                Family { enumerate: None, variant: "da", name: "private-collector-debug-assertions", strategy: |_| ebrworld::private(ebrworld::EW_GUARDS, 60), cases: |t| t.pick(12_000, 120_000) },
             ],
             exec: ebrworld::exec,
             rule: "programs over <=3 nested guards per thread created, dropped in any order, reactivated, reactivate_after'ed with collection rounds inside the closure and with panicking closures, the same API used from inside deferred functions during collection, next to peers that advance the epoch. Model: pinned <=> live guards > 0 and guard count equal, compared with the participant's real state after every op; reactivate on a non-sole guard leaves the announced epoch unchanged, on the sole guard re-pins at the current epoch, the thread is unpinned inside the closure only then, and is pinned again afterwards also on panic. Non-trivial = nesting depth >= 2 and at least one reactivation; distinct = distinct hash of the case",
@@ -322,7 +359,7 @@ pub fn all() -> Vec<CheckDef> {
         },
         CheckDef {
             id: "C17",
-            families: vec![Family { variant: "", name: "queue-histories", strategy: |_| queuelist::queue_strategy(), cases: |t| t.pick(60_000, 600_000) }],
+            families: vec![Family { enumerate: None, variant: "", name: "queue-histories", strategy: |_| queuelist::queue_strategy(), cases: |t| t.pick(60_000, 600_000) }],
             exec: queuelist::exec_c17,
             rule: "2-4 scheduled threads, <=8 ops each (push of a unique value, try_pop, try_pop_if with a generated threshold on the element's low byte) on the collector's internal queue type, optionally prefilled, with preemption at the queue's loads/CASes (tail lag, head/tail crossing). Oracle: the complete invocation/response history (plus the final drain) must have a linearisation accepted by the sequential FIFO specification with conditional pop (Wing-Gong search, memoised), no value popped twice or invented, pushed = popped + drained. Non-trivial = operations of two threads overlapped and at least one conditional pop was refused; distinct = distinct hash of the case",
             timeout_s: t60,
@@ -332,8 +369,8 @@ pub fn all() -> Vec<CheckDef> {
         CheckDef {
             id: "C18",
             families: vec![
-                Family { variant: "", name: "list-histories", strategy: |_| queuelist::list_strategy(), cases: |t| t.pick(60_000, 600_000) },
-                Family { variant: "", name: "registry-churn", strategy: |t| ebrworld::free(ebrworld::EW_CHURN, 4, t.pick(10, 15), t.pick(14, 23)), cases: |t| t.pick(60_000, 600_000) },
+                Family { enumerate: None, variant: "", name: "list-histories", strategy: |_| queuelist::list_strategy(), cases: |t| t.pick(60_000, 600_000) },
+                Family { enumerate: None, variant: "", name: "registry-churn", strategy: |t| ebrworld::free(ebrworld::EW_CHURN, 4, t.pick(10, 15), t.pick(14, 23)), cases: |t| t.pick(60_000, 600_000) },
             ],
             exec: queuelist::exec_c18,
             rule: "2-4 scheduled threads, <=8 ops each (insert, logical delete once by the owner or of a prefilled element, full traversal) on the collector's internal intrusive list type, with preemption inside insert's CAS loop, the iterator's unlink CAS and the delete mark. Oracle: a traversal that completed without reporting a stall visited every element whose insert had returned before the traversal was invoked and whose delete was not invoked before it returned; no element is visited before its insert was invoked; after deleting everything and clean-up traversals every element was finalized exactly once and the list is empty. Second family (registry-churn): 2-4 scheduled threads with short pin/round/defer programs on the default collector that exit (unregister) at generated points while others traverse the real participant registry inside try_advance; an epoch advancement that leaves a registered pinned participant more than one epoch behind has overlooked it. Non-trivial = a traversal overlapped both an insert and a delete (first family); a thread exited while a peer was pinned and the epoch advanced while some thread was pinned (second family); distinct = distinct hash of the case",
@@ -344,8 +381,8 @@ pub fn all() -> Vec<CheckDef> {
         CheckDef {
             id: "C20",
             families: vec![
-                Family { variant: "", name: "thread-lifecycles", strategy: |_| tls::strategy(), cases: |t| t.pick(30_000, 300_000) },
-                Family { variant: "da", name: "thread-lifecycles-debug-assertions", strategy: |_| tls::strategy(), cases: |t| t.pick(20_000, 200_000) },
+                Family { enumerate: None, variant: "", name: "thread-lifecycles", strategy: |_| tls::strategy(), cases: |t| t.pick(30_000, 300_000) },
+                Family { enumerate: None, variant: "da", name: "thread-lifecycles-debug-assertions", strategy: |_| tls::strategy(), cases: |t| t.pick(20_000, 200_000) },
             ],
             exec: tls::exec,
             rule: "a short-lived thread with up to three thread-local objects initialised in a generated order relative to circ's participant handle (so that their destructors run before or after the handle's), each destructor performing a generated list of API actions (pin, nested pin, flush, drop Rc/Weak, new+drop, chains, upgrade, load/store/swap on a shared cell, collection rounds, reactivate), a generated body, 0..130 deferrals pending at exit, and threads that first use the library inside a destructor. Oracle: join() returns Ok, no crash, and the surviving thread's collection rounds destruct and free every object the thread created. Non-trivial = at least one API action ran in a destructor after the thread's participant handle had been destroyed; distinct = distinct hash of the case",
